@@ -16,9 +16,11 @@ import time
 import traceback
 
 VERIF = os.path.dirname(os.path.dirname(os.path.abspath(__file__)))
-REPLAYS = os.path.join(VERIF, "replays")
-REGRESS = os.path.join(REPLAYS, "regress")
-EVIDENCE = os.path.join(VERIF, "evidence")
+# JV_REPLAY_DIR / JV_EVIDENCE_DIR: only used when the checks themselves are tested against seeded changes in
+# scratch worktrees (JV_REPO), so that those runs do not overwrite the evidence of the real tree.
+REPLAYS = os.environ.get("JV_REPLAY_DIR") or os.path.join(VERIF, "replays")
+REGRESS = os.path.join(VERIF, "replays", "regress")
+EVIDENCE = os.environ.get("JV_EVIDENCE_DIR") or os.path.join(VERIF, "evidence")
 KNOWN = os.path.join(VERIF, "known_findings.json")
 
 SHRINK_CAP = {"quick": 45.0, "thorough": 240.0}
